@@ -24,6 +24,7 @@ const c03MaxExtra = 1<<33 - 1
 type c03Closed struct {
 	lo, hi uintptr
 	data   []byte
+	step   int // scheduler step during which the mapping was closed
 }
 
 // c03Env is the per-case environment shared with C04/C05 style harnesses.
@@ -31,6 +32,7 @@ type c03Env struct {
 	dir      string
 	poison   bool
 	closed   []c03Closed
+	stepNow  int // current scheduler step (set by the schedule runner)
 	oldUnmap func(*mmap.Data) error
 }
 
@@ -46,7 +48,7 @@ func c03Setup(base string, seq int, poison bool) *c03Env {
 			return nil
 		}
 		full := d.Data[:cap(d.Data)]
-		e.closed = append(e.closed, c03Closed{uintptr(unsafePointer(full)), uintptr(unsafePointer(full)) + uintptr(len(full)), full})
+		e.closed = append(e.closed, c03Closed{uintptr(unsafePointer(full)), uintptr(unsafePointer(full)) + uintptr(len(full)), full, e.stepNow})
 		if e.poison {
 			// keep the address range reserved but make every access fault: a use after unmap
 			// becomes deterministic instead of sometimes hitting a recycled mapping
@@ -75,12 +77,17 @@ func (e *c03Env) teardown(files ...*file) {
 }
 
 func (e *c03Env) inClosed(addr uintptr) bool {
+	return e.closedAt(addr) >= 0
+}
+
+// closedAt returns the scheduler step at which the mapping containing addr was closed, or -1.
+func (e *c03Env) closedAt(addr uintptr) int {
 	for _, c := range e.closed {
 		if addr >= c.lo && addr < c.hi {
-			return true
+			return c.step
 		}
 	}
-	return false
+	return -1
 }
 
 // c03Persisted sums every counter over all counter files of the directory (independent decoder).
@@ -115,6 +122,9 @@ func c03Persisted(t *rapid.T, dir string, when string) map[string]uint64 {
 
 // c03Schedule runs the controller's threads under a generated schedule and
 // calls check after every step. It returns the number of context switches.
+// c03StepHook, if set, is called with the number of the scheduler step about to run and the thread taking it.
+var c03StepHook func(step int, th *vhook.Thread)
+
 func c03Schedule(t *rapid.T, ctl *vhook.Controller, maxSteps int, check func(step int, th *vhook.Thread)) (switches int, trace []int) {
 	// two schedule shapes: drawn (thread, burst) pairs, and a priority order with a few change points
 	pct := rapid.Bool().Draw(t, "pctSchedule")
@@ -169,6 +179,9 @@ func c03Schedule(t *rapid.T, ctl *vhook.Controller, maxSteps int, check func(ste
 			if th.ID != last {
 				switches++
 				last = th.ID
+			}
+			if c03StepHook != nil {
+				c03StepHook(steps+1, th)
 			}
 			ctl.Step(th)
 			steps++
